@@ -58,7 +58,7 @@ def denotes(scope, ident):
     return q.uri if q is not None else None
 
 
-def step(ctx, g, w, b, docs, fails, flags):
+def step(ctx, g, w, b, docs, fails, flags, free=()):
     r = g.rng
     k = r.random()
     d = r.choice(docs)
@@ -128,14 +128,17 @@ def step(ctx, g, w, b, docs, fails, flags):
                 {k_: sum(v.values()) for k_, v in after_t.items()}, {k_: sum(v.values()) for k_, v in exp.items()}), case))
         flags.add("update")
     elif k < 0.85 and len(docs) > 1:
-        o = r.choice([x for x in docs if x != d])
+        cands = [x for x in docs if x != d]
+        o = r.choice(list(free)) if (free and dobj.is_document() and g.chance(0.6)) else r.choice(cands)
         oobj = w.conts[o]
+        own_id = oobj.identifier if o in free else None
         mode = r.random()
         ident = b.fresh_name(d)
         expect_refusal = None
         if mode < 0.15:
             ident = None
-            expect_refusal = "missing identifier"
+            if own_id is None:
+                expect_refusal = "missing identifier"
         elif mode < 0.3 and list(dobj.bundles):
             q = r.choice(list(dobj.bundles)).identifier
             # the identifier already in use, in any spelling that denotes it in this document
@@ -175,7 +178,9 @@ def step(ctx, g, w, b, docs, fails, flags):
                 return
             fails.append(Failure("oracle", None, "add_bundle raised %r" % (err,), case))
             return
-        if proto.canon_cont(oobj) != obs_o:
+        if o in free:
+            free.remove(o)          # the very object is attached now
+        elif proto.canon_cont(oobj) != obs_o:
             fails.append(Failure("oracle", None, "add_bundle(document) changed the added document", case))
         bl = list(dobj.bundles)
         if len(bl) != nb_before + 1:
@@ -185,7 +190,9 @@ def step(ctx, g, w, b, docs, fails, flags):
         # a QualifiedName / full URI names one URI; a 'prefix:local' string is read in the added bundle's scope,
         # falling back to the document's: either reading is accepted
         wants = set()
-        if isinstance(ident, QualifiedName):
+        if ident is None:
+            wants = {own_id.uri}
+        elif isinstance(ident, QualifiedName):
             wants = {ident.uri}
         else:
             for scope in (dobj, nbobj):
@@ -217,8 +224,18 @@ def make_case(ctx, g):
     for _ in range(2):
         d, _scopes = b.random_document(n_records=g.rng.randint(1, 5))
         docs.append(d)
+    free = []
+    if g.chance(0.4):
+        # a free-standing ProvBundle that already carries an identifier of its own (attached later, under that or another name)
+        src = w.conts[docs[0]]
+        n = len(src.records)
+        if n:
+            hs = [w.rec_at(docs[0], g.rng.randrange(n)) for _ in range(g.rng.randint(1, 3))]
+            h, _e = w.new_doc_from(hs, bundle=True, ident=QualifiedName(Namespace("fb", "http://free.example/"), "own1"))
+            if h is not None:
+                free.append(h)
     for _ in range(g.rng.randint(1, 4)):
-        step(ctx, g, w, b, docs, fails, flags)
+        step(ctx, g, w, b, docs, fails, flags, free)
     for d in docs:
         w.obs(d)
     ctx.evaluations += 1
